@@ -14,6 +14,7 @@ from .c07 import ctx_val
 from .c06 import ref_round_pair_up
 
 PROP = 'C11'
+KNOWN_IDS = set(f['id'] for f in H.load_known_findings('C11'))      # regions are split off only while still listed as findings
 MODES = spec.MODES
 
 
@@ -76,8 +77,11 @@ def run_cbrt(nd, scale, p, mode, sign):
         wrong_val = rmag * 10 ** (M - sc) != mag * 10 ** (M - es)
         region_sticky = z3.And(z3.Not(exact), z3.Or(rem == 0, 2 * rem == 10 ** k))
         m.labels.add('rounds the root (%s)' % ('negative' if neg else 'positive'))
-        return [('value is cbrt(x) rounded to p digits under the mode (Floor/Ceiling on the signed value)', z3.And(wrong_val, z3.Not(region_sticky))),
-                ('KNOWN:sticky', z3.And(wrong_val, region_sticky)),
+        if 'C11-sticky' in KNOWN_IDS:
+            return [('value is cbrt(x) rounded to p digits under the mode (Floor/Ceiling on the signed value)', z3.And(wrong_val, z3.Not(region_sticky))),
+                    ('KNOWN:sticky', z3.And(wrong_val, region_sticky)),
+                    ('sign of the root is the sign of x', (ri > 0) if neg else (ri < 0))]
+        return [('value is cbrt(x) rounded to p digits under the mode (Floor/Ceiling on the signed value)', wrong_val),
                 ('sign of the root is the sign of x', (ri > 0) if neg else (ri < 0))]
     return run
 
@@ -151,6 +155,8 @@ def confirm(v):
 
 
 def in_known_region(x, scale, p):
+    if 'C11-sticky' not in KNOWN_IDS:
+        return False
     a = abs(x)
     nd = len(str(a))
     req = 3 * (p + 4)
@@ -228,7 +234,7 @@ def main(tier):
                   'scale': '-3..3 (quick) / -8..8 (thorough): all residues mod 3', 'modes': MODES, 'signs': 'both'}
     rep.assumptions = ['BigUint::nth_root(3) contract: fresh r within the integer-cube-root bounds of the digit-count range, free Boolean for r^3 == N (the cube relation is NOT encoded)',
                        'digit counting / == by contract (C18, C02)']
-    rep.outside = ['num-bigint nth_root itself', 'p beyond the listed values', 'the known-finding region (sticky information dropped)']
+    rep.outside = ['num-bigint nth_root itself', 'p beyond the listed values'] + (['the known-finding region (sticky information dropped)'] if KNOWN_IDS else [])
     sys.stderr.write('[C11] %d tasks\n' % len(tasks))
     results = H.run_parallel(tasks, worker, progress=200)
     rep.add(results)
